@@ -255,6 +255,18 @@ def gen_C07(rng, n):
     out = gen_C13(rng, max(1, n // 4))
     for _ in range(n):
         out.append(gen_prog_field(rng))
+        # Fq2 values: products whose components vanish from non-zero terms must still be canonical
+        lx, x = fq2_value(rng)
+        c = rng.random()
+        if c < 0.3:
+            y, ly = (x[0], (-x[1]) % q), 'conjugate'
+        elif c < 0.55 and not K2.is_zero(x):
+            y, ly = K2.inv(x), 'inverse'
+        elif c < 0.75:
+            y, ly = ((2 * x[1]) % q, x[0]), '(2b+au)'
+        else:
+            ly, y = fq2_value(rng)
+        out.append((f'fq2.law:{lx}*{ly}', f'fq2.law {K2.enc(x)} {K2.enc(y)}'))
     return out
 
 
@@ -598,14 +610,19 @@ def gen_C03(rng, n):
 
 
 def gen_prepared_reuse(rng):
+    """one prepared value used for several G1 inputs, in an arbitrary order, through the value and a clone;
+    the inputs include related points (P, -P, P again in another representation, 2P, O): a result
+    that depended on the call history would show up"""
     b = rng.randrange(1, r)
     Q = pt_mul(K2, b, P2)
     _, tq = rep(rng, K2, Q)
-    ps = []
-    for _ in range(rng.randrange(2, 5)):
-        A = pt_mul(K1, rng.choice([0, 1, rng.randrange(1, r)]), P1)
-        ps.append(rep(rng, K1, A)[1])
-    # the same inputs again, in another order, through a clone
+    A = pt_mul(K1, rng.randrange(1, r), P1)
+    pts = [A, pt_neg(K1, A), A, pt_add(K1, A, A), None, pt_mul(K1, rng.randrange(1, r), P1)]
+    rng.shuffle(pts)
+    pts = pts[:rng.randrange(3, 7)]
+    if not any(p_ is not None and pt_neg(K1, p_) in pts for p_ in pts):
+        pts += [A, pt_neg(K1, A)]
+    ps = [rep(rng, K1, p_)[1] for p_ in pts]
     order = list(range(len(ps))) + list(range(len(ps)))
     rng.shuffle(order)
     return ('pair.reuse', 'pair.reuse ' + tq + ' ' + ','.join(map(str, order)) + ' ' + ' '.join(ps))
